@@ -5,6 +5,7 @@ import (
 	"context"
 	"fmt"
 	"io"
+	"math"
 	"math/rand"
 	"os"
 	"runtime/debug"
@@ -123,6 +124,32 @@ func gen01(seed int64, tier string) []drv.Case {
 			}
 			add(fmt.Sprintf("leaf%d", b.leaf), cfg(params{Leaf: b.leaf, Len: l, Src: srcs[r.Intn(len(srcs))]}))
 		}
+	}
+	// leaf sizes around the boundaries of the reader's pooled buffer classes (1, 2, 3, 4, 5 MiB) and PRNG leaf sizes:
+	// one full leaf plus a partial one, so that a whole leaf must go through a pooled buffer
+	classLeaves := []int{MiB - 1, MiB + 1, 2*MiB + 1, 3 * MiB, 3*MiB + 1, 4 * MiB, 4*MiB + 1, 4*MiB + MiB/2, 5*MiB - 1}
+	nrand := 6
+	if tier == "thorough" {
+		nrand = 120
+		classLeaves = append(classLeaves, classLeaves...)
+	}
+	for i := 0; i < nrand; i++ {
+		// log-uniform in [64, 5 MiB]
+		lg := 6.0 + r.Float64()*(22.32-6.0)
+		leaf := int(math.Exp2(lg))
+		if leaf > 5*MiB {
+			leaf = 5 * MiB
+		}
+		classLeaves = append(classLeaves, leaf)
+	}
+	for _, leaf := range classLeaves {
+		l := leaf + 1 + r.Intn(200)
+		if leaf < MiB {
+			l = 2*leaf + r.Intn(leaf)
+		}
+		p := cfg(params{Leaf: leaf, Len: l, Src: cafsh.Source{Kind: []string{"single", "rd-fixed"}[r.Intn(2)], Chunk: 32 * 1024}})
+		p.Store, p.Chunked = "mem", 0
+		add("buffer-class-leaf", p)
 	}
 	// concurrent ReadAt on one Fs with a tiny cache (shared LRU, pinning, free list recycling)
 	nc := 12
